@@ -33,7 +33,10 @@ def generate(ctx, exe, profile, ntables, npoints, maxcoef, tag=""):
                        ("%d sets of lookups / evaluations made on const tables while other threads were evaluating the same tables differ from the same calls made alone" % co) if co > 0
                        else "the process evaluating const tables from %s threads at the same time died (signal %d); each of these calls succeeds alone" % (st.get("concurrent_threads"), -co))
         ho = st.get("history_outcome")
-        if ho is None or not st.get("history_points_compared"):
+        if ho is not None and ho < 0:
+            ctx.report("evaluation-after-in-place-change-crash", {"profile": profile + tag, "outcome": ho, "replay_cmd": "VERIF_SEED=%d python3 bin/check.py %s --tier %s" % (ctx.seed, ctx.prop, ctx.tier)},
+                       "evaluating a table after it had been evaluated and then convolved / permuted in place (C++ member or C wrapper) killed the process (signal %d)" % (-ho))
+        elif ho is None or not st.get("history_points_compared"):
             ctx.tie_ok = False; ctx.broken.append({"kind": "the history phase of the evaluation harness did not run or compared nothing", "profile": profile + tag, "stats": {k: v for k, v in st.items() if k.startswith("history")}})
         elif ho != 0:
             ctx.report("evaluation-depends-on-history" if ho > 0 else "evaluation-after-in-place-change-crash",
